@@ -345,23 +345,39 @@ def run(ctx):
     # ---- C02.6 peer address
     pa = facts.fn("connection::Connection::peer_addr")
     ctx.touch(pa)
-    sw = None
-    for b2 in sorted(pa.live_blocks()):
-        s2 = switch_on_discr(pa, b2)
-        if s2:
-            sw = s2
-            break
-    ctx.require(sw is not None, "C02.6: Connection::peer_addr does not match on the connection kind")
-    rv, m, otherwise, rest = sw
+    # evaluated for either kind of connection, with the helpers of its file (and a dispatch over the crate's implementations of a private
+    # trait, when it goes through a trait object) spliced in
+    import inline as _inl
+    import queue_rules as _Q
+    paf = _inl.inlined(facts, pa.id, stop=lambda d: facts.fns[d].rec.get("local") and facts.fns[d].file != pa.file, extern_ok=_Q.std_small)
+    CONN_ADT = re.sub(r"^&('\w+ )?(mut )?", "", pa.local_ty(1))
+    ca = facts.adts.get(CONN_ADT)
+    ctx.require(ca is not None and ca["kind"] == "Enum", "C02.6: Connection::peer_addr does not take the connection (an enum over the socket families)")
     res = {}
-    for v in ("Tcp", "Unix"):
-        tgt = m.get(v, otherwise if v in rest else None)
-        if tgt is None:
-            continue
-        outs = shared.eval_from(pa, tgt)
-        for p, st in outs:
-            res[v] = symex.sym_str(st.read_key((0,)))
-    ok = "TcpStream::peer_addr" in res.get("Tcp", "") and "Option::<std::net::SocketAddr>::Some" in res.get("Tcp", "") and "None" in res.get("Unix", "") and "Ok" in res.get("Unix", "")
+    for v in ca["variants"]:
+        st = symex.Sym(paf)
+        val = ("agg", CONN_ADT, v["name"], {x["name"]: ("sym", "the-socket") for x in v["fields"]})
+        st.write_key((1, "*") if pa.local_ty(1).startswith("&") else (1,), val)
+        outs = set()
+        for p in absint.explore(paf, 0, st, max_paths=200):
+            if p.end[0] != "return":
+                continue
+            r = absint.deep(p.state, p.ret())
+            if r[0] == "agg" and r[2] == "Ok":
+                x = r[3].get("0", ("unknown",))
+                if x[0] == "none":
+                    outs.add("Ok(None)")
+                elif (x[0] == "some" or (x[0] == "call" and re.search(r"(^|::)Some$", x[1]))) and any(re.search(r"^std::net::TcpStream::peer_addr$", c[1]) for c in absint.calls_in(x)):
+                    outs.add("Ok(Some(TcpStream::peer_addr))")
+                else:
+                    outs.add("Ok(%s)" % symex.sym_str(x)[:80])
+            elif r[0] == "agg" and r[2] == "Err":
+                outs.add("Err")
+            else:
+                outs.add(symex.sym_str(r)[:80])
+        res[v["name"]] = outs
+    ok = res.get("Tcp", set()) - {"Err"} == {"Ok(Some(TcpStream::peer_addr))"} and all(o == {"Ok(None)"} for k_, o in res.items() if k_ != "Tcp") and len(res) >= 2
+    res = {k_: sorted(o) for k_, o in res.items()}
     ctx.ob("C02.6", "%s|tcp-some-unix-none" % pa.id, "the peer address is Some(socket peer address) on TCP and None on UNIX sockets", ok, "%s:%d" % (pa.file, pa.line), str(res))
     cc_ctor = sorted({g_.id for g_, b_, s_ in facts.constructions(CC)})
     addr_f = [x["name"] for x in facts.adt(CC)["variants"][0]["fields"] if "SocketAddr" in x["ty"]]
